@@ -170,6 +170,24 @@ theorem C01_missing_iff (reg : List S) (lib : Library N S) (gs : List (N × Rat)
     · intro h; cases h
     · rintro ⟨h, _⟩; exact absurd h hr
 
+/-- **T3 (unregistered property set)** `Estimate` fails with the invalid-name `KeyError` exactly when the property-set
+name is not registered — before any descriptor is looked at. -/
+theorem C01_invalid_set_iff (reg : List S) (lib : Library N S) (gs : List (N × Rat)) (s : S) :
+    estimate reg lib gs s = .error .invalidSet ↔ reg.contains s = false := by
+  unfold estimate
+  rw [missingGroups_eq_spec]
+  split
+  · rename_i hr
+    simp only [hr, Bool.true_eq_false, iff_false]
+    split
+    · rename_i hm
+      intro h
+      rcases construct_error lib s gs _ h hm with ⟨g, hg⟩ | hg | hg <;> cases hg
+    · intro h; cases h
+  · rename_i hr
+    simp only [true_iff]
+    simpa using hr
+
 /-- **T3 (no partial sum)** If some descriptor of the mapping lacks the property set there is no estimate at
 all: the outcome carries no value (for any registered or unregistered set name). -/
 theorem C01_missing_no_value (reg : List S) (lib : Library N S) (gs : List (N × Rat)) (s : S)
